@@ -322,6 +322,7 @@ func (in *Interp) runPath(run func()) (end pathEnd) {
 	in.initDone = map[*ssa.Package]bool{}
 	in.syncMaps = nil
 	in.randSeq = 0
+	in.jsonSeq, in.jsonVals = 0, nil
 	in.bgCtx = nil
 	in.lastClock = nil
 	defer func() {
